@@ -50,7 +50,7 @@ type CtxSpec struct {
 type Op struct {
 	Kind  string `json:"kind"` // get put del app inc cas batch scan cache sleep close status
 	Table string `json:"table,omitempty"`
-	Key   []byte `json:"key,omitempty"`
+	Key   []byte `json:"key"`
 	Nonce uint64 `json:"nonce,omitempty"`
 	// mutations: family -> qualifier -> payload (the nonce is prepended on the wire)
 	Vals map[string]map[string][]byte `json:"vals,omitempty"`
@@ -71,8 +71,8 @@ type Op struct {
 	Batch     []Op                `json:"batch,omitempty"`
 	Dup       [][2]int            `json:"dup,omitempty"` // batch: slot j repeats the call object of slot i
 	// scan
-	Start    []byte `json:"start,omitempty"`
-	Stop     []byte `json:"stop,omitempty"`
+	Start    []byte `json:"start"`
+	Stop     []byte `json:"stop"`
 	Reversed bool   `json:"reversed,omitempty"`
 	NumRows  uint32 `json:"num_rows,omitempty"`
 	Partial  bool   `json:"partial,omitempty"`
